@@ -47,6 +47,15 @@ def main():
         res["demo_patched_exit"] = r1.returncode
         res["demo_patched_out"] = (r1.stdout + r1.stderr)[-400:]
         mut_fail = failing_tests()
+        if mut_fail != base_fail:      # a few shipped tests depend on the wall clock (minute boundaries): look again
+            import time as _t
+            _t.sleep(2)
+            mut_fail = failing_tests()
+            if mut_fail != base_fail:
+                sh("git -C /repo stash -q")
+                base_fail = failing_tests()
+                sh("git -C /repo stash pop -q")
+                mut_fail = failing_tests()
         res["tests_unchanged"] = mut_fail == base_fail
         if mut_fail != base_fail:
             res["tests_diff"] = sorted(set(mut_fail) ^ set(base_fail))
